@@ -220,7 +220,8 @@ def execute(unc, cfg, a, files, d, obs=(), env=None, timeout=60, cwd_sub=None):
     if a["src"] == "stdin":
         names["stdin"] = 1
     for line in (out + b"\n" + err).split(b"\n"):
-        m = re.match(rb"^(PASS|FAIL): (\S+) ", line)
+        # the report follows the formatted bytes on stdout: after UTF-16LE text the line starts with the NUL of the last 0a 00
+        m = re.match(rb"^\x00?(PASS|FAIL): (\S+) ", line)
         if m:
             i = names.get(m.group(2).decode("latin-1"), 0)
             if i:
